@@ -7,6 +7,8 @@ import ODataVerif.Wire
 import ODataVerif.Model.Lexer
 import ODataVerif.Model.Parser
 import ODataVerif.Spec.Builtins
+import ODataVerif.Model.Typing
+import ODataVerif.Spec.Types
 open OQ OQ.Wire
 
 def encTok : Tok → String
@@ -17,6 +19,43 @@ def encTok : Tok → String
   | .bool o => o.className
   | .not_ => "Not" | .uminus => "USub" | .any => "Any" | .all => "All" | .ws => "WS"
   | .lp => "(" | .rp => ")" | .comma => "," | .slash => "/" | .colon => ":" | .eqs => "="
+
+/-- field typing by naming convention (harness/gens_typed.py) -/
+def gammaOfName (n : Str) : Option Spec.OTy :=
+  let s := String.ofList n
+  if s.startsWith "geo" then some (.prim .geo)
+  else if s.startsWith "dt" then some (.prim .datetime)
+  else if s.startsWith "du" then some (.prim .duration)
+  else if s.startsWith "tm" then some (.prim .time)
+  else if s.startsWith "s" then some (.prim .str)
+  else if s.startsWith "i" then some (.prim .int)
+  else if s.startsWith "f" then some (.prim .float)
+  else if s.startsWith "b" then some (.prim .bool)
+  else if s.startsWith "d" then some (.prim .date)
+  else if s.startsWith "g" then some (.prim .guid)
+  else if s.startsWith "c" then some .coll
+  else none
+
+def gamma : Expr → Option Spec.OTy
+  | .ident i => gammaOfName i.name
+  | .attr _ n => gammaOfName n
+  | _ => none
+
+def encOTy : Option Spec.OTy → String
+  | some (.prim k) => k.className
+  | some .coll => "List"
+  | none => "None"
+
+def parseTys (s : String) : List Ty :=
+  (s.splitOn ",").filterMap (fun w =>
+    if w == "List" then some Ty.list else (LitKind.ofClassName w).map Ty.lit)
+
+def withExpr (w : String) (f : Expr → String) : String :=
+  match decTree w with
+  | some t => (match Expr.ofTree t with
+               | some e => f e
+               | none => "not-expr")
+  | none => "bad-arg"
 
 def handle (args : List String) : String :=
   match args with
@@ -32,6 +71,10 @@ def handle (args : List String) : String :=
       match decStr h with
       | some s => encOutcome (fun e => encTree e.toTree) (parseText pyCharEnv s)
       | none => "bad-arg"
+  | ["infer", w] => withExpr w (fun e => match inferType e with | some t => t.className | none => "None")
+  | ["typeof", w] => withExpr w (fun e => encOTy (Spec.typeOf gamma e))
+  | ["typecheck", w, allowed] =>
+      withExpr w (fun e => encOutcome (fun _ => "unit") (typecheck e (parseTys allowed) "field".toList))
   | ["c11spec", h, v, n] =>
       -- what C11 demands of a call `name(…n args…)`: from Spec.Builtins only
       match decStr h, n.toNat? with
